@@ -26,7 +26,7 @@ def profile(r, tier, index):
     prof = {
         "mailboxes": ["inbox", "lists"][: r.randint(1, 2)], "sessions": r.randint(1, 3) if not conc else r.randint(2, 3), "weights": W, "init_hi": 5,
         "ops_lo": 8, "ops_hi": 40 if tier == "thorough" else 28, "mode": "concurrent" if conc else "sequential", "bad_set_p": 0.02, "examine_p": 0.1,
-        "quiet_p": 0.1 if conc else 0.3,
+        "quiet_p": 0.1 if conc else 0.3, "keywords": "wild" if r.random() < 0.25 else "tame",
     }
     if not conc:
         prof["probe_p"] = r.choice((1.0, 1.0, 0.35, 0.1))
